@@ -1,4 +1,17 @@
-"""Per-property configuration: theorems audited, components exercised, budgets."""
+"""Per-property configuration: theorems audited, components exercised, budgets.
+
+Each property lives in its own module lib/props_<id>.py defining ID and PROP; this module
+collects them.  Fields of PROP:
+  modules      Lean modules holding the property theorems (Gnmi.Props.<id>, generated props)
+  theorems     fully qualified theorem names audited with `#print axioms` on every run
+  components   correspondence runs: {"c": <vcorr component>, "label"?, "gen_args"?,
+               "quick": {"n": random sequences, "exhaustive": bool, "seeds": k}, "thorough": {...}}
+  pre / extra  optional python callables step(ctx, cfg) run before / after the correspondences
+  monitor      "spec" (compare impl with the abstract spec column) or "model"
+  level, trusted_base, assumptions, rule   evidence fields
+  manifest     {"level_text", "level_note", "technique", "design_ref"} for MANIFEST.json
+"""
+import glob, importlib, os
 
 COMMON_TB = [
     "Go runtime, compiler and standard library; protobuf/gRPC libraries (not modelled)",
@@ -6,20 +19,6 @@ COMMON_TB = [
 ]
 
 PROPS = {}
-
-PROPS["C09"] = {
-    "modules": ["Gnmi.Props.C09"],
-    "theorems": ["Gnmi.C09." + t for t in [
-        "history_refinement", "reachable_wf", "step_refines", "add_refines", "add_fails_iff",
-        "content_prefixFree", "query_spec", "get_spec", "get_none_spec", "walkSorted_content",
-        "walkSorted_sorted", "delete_eq_query", "delete_rest", "delete_wf", "delete_empty",
-        "delete_through_leaf", "add_after_delete", "readd_after_delete"]],
-    "components": [
-        {"c": "ct", "quick": {"n": 3000, "exhaustive": True}, "thorough": {"n": 40000, "exhaustive": True, "seeds": 4}},
-    ],
-    "monitor": "spec",
-    "level": "proof",
-    "trusted_base": COMMON_TB + ["ctree modelled sequentially (locks ignored; concurrency is C10)"],
-    "assumptions": ["stored values are non-nil (the API uses nil as 'absent')",
-                    "Leaf.Update is applied to leaf nodes only", "single goroutine"],
-}
+for _f in sorted(glob.glob(os.path.join(os.path.dirname(os.path.abspath(__file__)), "props_C*.py"))):
+    _m = importlib.import_module(os.path.basename(_f)[:-3])
+    PROPS[_m.ID] = _m.PROP
